@@ -50,6 +50,13 @@ CHECKS = {
                      "teardown, never re-sent once answered; DPD probe timing against the last authentic input with "
                      "peer traffic at every tick offset; IKE lifetime / rekey / delete timing at both jitter extremes "
                      "with answering, silent and colliding peers; peer crash after every step of a reference session."),
+    'C03': dict(level='model_checking', technique=MC + "; exhaustive adversarial injection alphabet in every state", engine='world-explorer',
+                text="In every state of the one-trigger exploration (both roles, every request-outstanding state, REKEYED, "
+                     "the rekeyed successor, half-open) and for every IKE_SA with keys: forged cleartext of every exchange "
+                     "type x request/response x Message ID relative to the window x body, bit flips / truncations / "
+                     "extension of authentic messages, the same plaintext under other keys, reflection - each injected "
+                     "through main_loop on a fork; the endpoint's complete snapshot (state, counters, CHILD_SAs, timers, "
+                     "cached response, kernel SAD, netlink log) must be unchanged and nothing may be emitted."),
 }
 
 # filled in as checks are built; anything in ALL but not in CHECKS is listed under not_applicable
